@@ -685,6 +685,33 @@ static int corpus_next(corpus_iter *it) {
             strcpy(it->family, "S2q");
             return 1;
         }
+        case 12: { /* S5: exception COUNTS at the boundaries of a tagged count (240|241, 2287|2288|2289): a constant (or
+                    * narrow) cluster followed by exactly K nine-byte outliers at the end, long enough that the 90th and
+                    * 95th percentile fall inside the cluster - the patched frame's size prediction is then tight */
+            static const size_t KS[5] = {240, 241, 2287, 2288, 2289};
+            const uint64_t per = 2;
+            if (i >= 5 * per) {
+                it->stage++;
+                it->i = 0;
+                continue;
+            }
+            size_t K = KS[i / per], n = 20 * K + 40;
+            int narrow = (int)(i % per);
+            it->i++;
+            if (n > it->maxn) {
+                continue;
+            }
+            for (size_t j = 0; j < n - K; j++) {
+                it->v[j] = narrow ? 1000 + (j * 7) % 100 : 1000;
+            }
+            for (size_t j = 0; j < K; j++) {
+                it->v[n - K + j] = UINT64_MAX - (uint64_t)(K - 1 - j);
+            }
+            it->n = n;
+            snprintf(it->desc, sizeof it->desc, "n=%zu: %s cluster then exactly %zu nine-byte outliers at the end", n, narrow ? "narrow (1000..1099)" : "constant (1000)", K);
+            strcpy(it->family, "S5");
+            return 1;
+        }
         default:
             return 0;
         }
